@@ -116,6 +116,16 @@ func GenSFHostile(r *rand.Rand, seq, subID uint32, maxSize int) *SFDatagram {
 				rec.Raw.IHL = uint8(r.Intn(16))
 			}
 			switch {
+			case rec.Raw != nil && r.Intn(6) == 0:
+				// the sampled header claims a length of its own choosing - alone, or
+				// together with the record that carries it
+				rec.HdrLenP1 = 1 + Boundary32(r)
+				if r.Intn(2) == 0 {
+					rec.DeclLenP1 = 1 + Boundary32(r)
+					if r.Intn(2) == 0 {
+						rec.DeclLenP1 = rec.HdrLenP1 + 16 + uint32(r.Intn(3))*4
+					}
+				}
 			case rec.Raw != nil && r.Intn(2) == 0:
 				n := len(rec.Raw.Bytes())
 				if r.Intn(2) == 0 && n > 20 {
